@@ -86,15 +86,20 @@ structure PFace where
   label : String
   deriving DecidableEq, Repr
 
-structure Mesh where
-  depot : List Op := []
-  deleted : List Nat := []
+/-- what `assemble()` fills and `clear()` empties: the five lists and `Mesh.assembled` -/
+structure Lists where
   assembled : List Nat := []
   verts : List Vtx := []
   blocks : List Block := []
   edges : List Edge := []
   faces : List PFace := []
   patches : List Patch := []
+  deriving DecidableEq, Repr
+
+structure Mesh where
+  depot : List Op := []
+  deleted : List Nat := []
+  lists : Lists := {}
   modified : List String := []
   dflt : Option (String × String) := none
   merged : List (String × String) := []
@@ -130,11 +135,11 @@ def patchesAtCorner (o : Op) (c : Nat) : List String :=
 def cornerSlaves (slaves : List String) (o : Op) (c : Nat) : List String :=
   sortDedup ((patchesAtCorner o c).filter (· ∈ slaves))
 
-/-- `Mesh._add_vertices`: the loop over the 8 corners, threaded through the vertex list. -/
-def addVertsAux (slaves : List String) (o : Op) : List (Nat × Nat) → List Vtx → List Vtx × List Nat
+/-- `Mesh._add_vertices`: the loop over the corners, threaded through the vertex list. -/
+def addVertsAux (slaves : List String) (o : Op) : List Nat → List Vtx → List Vtx × List Nat
   | [], vs => (vs, [])
-  | (c, loc) :: rest, vs =>
-      let r := vadd vs loc (o.cornerProj.getD c []) (cornerSlaves slaves o c)
+  | c :: rest, vs =>
+      let r := vadd vs (o.corners.getD c 0) (o.cornerProj.getD c []) (cornerSlaves slaves o c)
       let r2 := addVertsAux slaves o rest r.1
       (r2.1, r.2 :: r2.2)
 
@@ -142,8 +147,9 @@ def enumFrom {α : Type} (n : Nat) : List α → List (Nat × α)
   | [] => []
   | x :: xs => (n, x) :: enumFrom (n + 1) xs
 
+/-- `for corner in range(8)` -/
 def addVerts (slaves : List String) (o : Op) (vs : List Vtx) : List Vtx × List Nat :=
-  addVertsAux slaves o (enumFrom 0 o.corners) vs
+  addVertsAux slaves o [0, 1, 2, 3, 4, 5, 6, 7] vs
 
 /-! ### edge list -/
 
@@ -229,27 +235,32 @@ def addFaces (fs : List PFace) (items : List (List Nat × String)) : List PFace 
 
 def slavePatches (m : Mesh) : List String := m.merged.map (·.2)
 
-/-- the body of the loop of `Mesh.assemble` for one operation that is not deleted -/
-def addOp (m : Mesh) (o : Op) : Mesh :=
-  let r := addVerts (slavePatches m) o m.verts
+/-- the body of the loop of `Mesh.assemble` for one operation that is not deleted
+    (`slaves` = `patch_list.slave_patches`, which does not change during assembly) -/
+def addOp (slaves : List String) (l : Lists) (o : Op) : Lists :=
+  let r := addVerts slaves o l.verts
   let vi := r.2
-  { m with
-    verts := r.1
-    edges := addEdges m.edges o vi
-    blocks := m.blocks ++ [{ opId := o.id, verts := vi, chops := o.chops, zone := o.zone, aspec := [], wspec := [] }]
-    assembled := m.assembled ++ [o.id]
-    patches := addItems m.patches (patchItems o vi)
-    faces := addFaces m.faces (faceItems o vi) }
+  { verts := r.1
+    edges := addEdges l.edges o vi
+    blocks := l.blocks ++ [{ opId := o.id, verts := vi, chops := o.chops, zone := o.zone, aspec := [], wspec := [] }]
+    assembled := l.assembled ++ [o.id]
+    patches := addItems l.patches (patchItems o vi)
+    faces := addFaces l.faces (faceItems o vi) }
 
-/-- `Mesh.assemble`: the depot in order, deleted operations skipped. -/
+/-- the loop of `Mesh.assemble`: the depot in order, deleted operations skipped. -/
+def assembleLoop (slaves : List String) (deleted : List Nat) : List Op → Lists → Lists
+  | [], l => l
+  | o :: rest, l => assembleLoop slaves deleted rest (if o.id ∈ deleted then l else addOp slaves l o)
+
+/-- `Mesh.assemble` -/
 def assemble (m : Mesh) : Mesh :=
-  m.depot.foldl (fun m o => if o.id ∈ m.deleted then m else addOp m o) m
+  { m with lists := assembleLoop (slavePatches m) m.deleted m.depot m.lists }
 
-/-- `Mesh.clear` -/
+/-- `Mesh.clear` (the patch list keeps its entries, see `clearPatches`) -/
 def clear (m : Mesh) : Mesh :=
-  { m with assembled := [], verts := [], edges := [], blocks := [], faces := [], patches := clearPatches m.patches }
+  { m with lists := { patches := clearPatches m.lists.patches } }
 
-def isAssembled (m : Mesh) : Bool := !m.verts.isEmpty
+def isAssembled (m : Mesh) : Bool := !m.lists.verts.isEmpty
 
 def add (m : Mesh) (o : Op) : Mesh := { m with depot := m.depot ++ [o] }
 def delete (m : Mesh) (id : Nat) : Mesh := { m with deleted := id :: m.deleted }
@@ -257,13 +268,14 @@ def mergePatches (m : Mesh) (master slave : String) : Mesh := { m with merged :=
 def setDefault (m : Mesh) (name kind : String) : Mesh := { m with dflt := some (name, kind) }
 
 def modify (m : Mesh) (n kind : String) (settings : Option (List String)) : Mesh :=
-  { m with patches := modifyPatch m.patches n kind settings,
+  { m with lists := { m.lists with patches := modifyPatch m.lists.patches n kind settings },
            modified := if n ∈ m.modified then m.modified else m.modified ++ [n] }
 
 /-- `mesh.vertices[r mod n].move_to(position)`; nothing when there are no vertices. -/
 def moveVertex (m : Mesh) (r loc : Nat) : Mesh :=
-  if m.verts.isEmpty then m
-  else { m with verts := m.verts.modify (r % m.verts.length) (fun v => { v with loc := loc }) }
+  if m.lists.verts.isEmpty then m
+  else { m with lists := { m.lists with
+           verts := m.lists.verts.modify (r % m.lists.verts.length) (fun v => { v with loc := loc }) } }
 
 def locOf (vs : List Vtx) (i : Nat) : Nat := ((vs[i]?).map (·.loc)).getD 0
 
@@ -279,7 +291,7 @@ def backportDepot (vs : List Vtx) : List (Block × Nat) → List Op → List Op
 /-- `Mesh.backport`; `none` = RuntimeError (not assembled) -/
 def backport (m : Mesh) : Option Mesh :=
   if isAssembled m then
-    some (assemble (clear { m with depot := backportDepot m.verts (m.blocks.zip m.assembled) m.depot }))
+    some (assemble (clear { m with depot := backportDepot m.lists.verts (m.lists.blocks.zip m.lists.assembled) m.depot }))
   else none
 
 /-! ### grading (count-only, every axis chopped by the user) -/
@@ -289,7 +301,7 @@ def gradeBlock (b : Block) : Block :=
   { b with aspec := b.chops, wspec := b.chops.map (fun c => [c, c, c, c]) }
 
 /-- `BlockList.grade_blocks` -/
-def gradeBlocks (m : Mesh) : Mesh := { m with blocks := m.blocks.map gradeBlock }
+def gradeBlocks (m : Mesh) : Mesh := { m with lists := { m.lists with blocks := m.lists.blocks.map gradeBlock } }
 
 /-- an axis is defined when all its wire gradings are -/
 def Block.isDefined (b : Block) : Bool :=
@@ -334,10 +346,10 @@ def Patch.descr (p : Patch) : String :=
 
 /-- what `Mesh.write` puts into the file, section by section -/
 def render (m : Mesh) : String :=
-  let pats := m.patches.filter (fun p => !(p.sides.isEmpty && !(m.modified.contains p.name)))
+  let pats := m.lists.patches.filter (fun p => !(p.sides.isEmpty && !(m.modified.contains p.name)))
   let dflt := match m.dflt with | some (n, k) => s!"{n}:{k}" | none => ""
-  "V[" ++ join ";" (m.verts.map Vtx.descr) ++ "]B[" ++ join ";" (m.blocks.map Block.descr) ++
-  "]E[" ++ join ";" (m.edges.map Edge.descr) ++ "]F[" ++ join ";" (m.faces.map PFace.descr) ++
+  "V[" ++ join ";" (m.lists.verts.map Vtx.descr) ++ "]B[" ++ join ";" (m.lists.blocks.map Block.descr) ++
+  "]E[" ++ join ";" (m.lists.edges.map Edge.descr) ++ "]F[" ++ join ";" (m.lists.faces.map PFace.descr) ++
   "]P[" ++ join ";" (pats.map Patch.descr) ++ "]D[" ++ dflt ++
   "]M[" ++ join ";" (m.merged.map (fun p => s!"{p.1}-{p.2}")) ++ "]"
 
@@ -347,7 +359,7 @@ def write (m : Mesh) : Mesh × Except Err String :=
   if !isAssembled m1 then (m1, .error .notAssembled)
   else
     let m2 := gradeBlocks m1
-    if m2.blocks.all Block.isDefined then (m2, .ok (render m2)) else (m2, .error .undefined)
+    if m2.lists.blocks.all Block.isDefined then (m2, .ok (render m2)) else (m2, .error .undefined)
 
 /-- the text of the file `write` produces (or the error) -/
 def written (m : Mesh) : Except Err String := (write m).2
